@@ -43,3 +43,7 @@ claim("C07",
       "Bounded-progress runtime monitor in logical time (engine steps from hook H1): every branch of a generated disjunction (conde / match / matche; infinite producers, silent divergers incl. pause-only closures, finite goals; top level, after a prefix, nested) is run alone, and every answer it yields within 6000 steps must also come out of the whole disjunction within F = 64*2^(k*d)*(s+16) steps; a budget overrun with awaited answers outstanding is the refuting event. Unbounded fairness is NOT decided; only this bounded restatement, on the executions observed.",
       "Trusted: the fixed bound F (2-3 orders of magnitude above the unchanged engine's need); step meter hook H1.",
       "runtime monitoring: bounded-progress oracle on hooked engine step counts (branch alone vs. in the disjunction)")
+claim("C08",
+      "Metamorphic (decomposition) + reference-model runtime monitor: for generated `prefix, OP{[head, rest...]...}` programs the committed clause is determined by running each head on the real engine, and the operator's answers must equal, as a multiset, those of `prefix, head, rest` (conda) or `prefix, <first engine answer of the head>, rest` (condu/onceo); wherever the soft-cut semantics is unambiguous the reference interpreter is compared too; matcha/matchu go through the macro's expansion shape; nested committed choice in rest goals makes conjunct order observable; H2 counters must show Solver::peek and Solver::trunc stepping lazy streams. Held on the executions observed.",
+      "Trusted: the engine itself for WHICH head answer is first (the property's wording); pvmon::refsem soft-cut interpreter; heads bind query variables to ground terms only.",
+      "runtime monitoring: decomposition-metamorphic oracle (operator vs committed clause run separately) + reference-model comparison")
